@@ -15,6 +15,9 @@ pub enum H {
     Msg,
     /// message + run_spawned + stub session + run_ended (the real run path without a provider)
     Run,
+    /// like Run, but the input is a tool envelope (0: write tool, 1: failing read) or a checkpoint
+    /// envelope (2: create, 3: rewind of an unknown id)
+    EnvRun(u8),
     /// message + run_spawned only (run still open)
     RunSpawnOnly,
     /// run_ended for the oldest run that is still open
@@ -39,6 +42,7 @@ pub fn name(op: &H) -> String {
     match op {
         H::Msg => "msg".into(),
         H::Run => "run".into(),
+        H::EnvRun(k) => format!("env_run{k}"),
         H::RunSpawnOnly => "run_spawn_only".into(),
         H::RunEndOldest => "run_end_oldest".into(),
         H::Side => "side".into(),
@@ -94,8 +98,14 @@ pub fn apply(fx: &mut Fx, t: &mut Track, op: &H) -> Value {
                 t.last_msg = Some(id.clone());
                 Ok(json!({"message_id": id}))
             }
-            H::Run => {
-                let content = format!("r{n}");
+            H::Run | H::EnvRun(_) => {
+                let content = match op {
+                    H::EnvRun(0) => json!({"tool": "write", "args": {"path": format!("f{n}.txt"), "content": "é\n"}}).to_string(),
+                    H::EnvRun(1) => json!({"tool": "read", "args": {"path": "does-not-exist"}}).to_string(),
+                    H::EnvRun(2) => json!({"checkpoint": {"action": "create", "label": "l", "files": ["a.txt"]}}).to_string(),
+                    H::EnvRun(_) => json!({"checkpoint": {"action": "rewind", "id": "nope"}}).to_string(),
+                    _ => format!("r{n}"),
+                };
                 let message_id = store.append_message(&thread, "user".into(), "verif".into(), content.clone())?;
                 let handle = fx.engine.create_session();
                 let session_id = handle.session_id.clone();
